@@ -392,30 +392,63 @@ pub fn c17_td_mul_units() {
 }
 
 // ---- scratch (to be removed) ----
-fn x_rt(lo: i64, hi: i64) {
-    let v: i64 = kani::any();
-    kani::assume(v >= lo && v < hi);
-    let t = Time(v);
-    match t.as_cr() {
-        Some(nt) => {
-            let back = Time::from_cr(&nt);
-            assert!(back.0 == t.0, "Time -> NaiveTime -> Time identity");
-        },
-        None => assert!(false, "a time of day inside 0..86400 s has a NaiveTime"),
-    }
+#[kani::proof]
+pub fn c17_x_mullemma() {
+    let s: i64 = kani::any();
+    let n: i64 = kani::any();
+    kani::assume(s >= -86_400 && s <= 86_400 && n >= 0 && n < NS);
+    assert!((s + 1) * NS + (n - NS) == s * NS + n, "lemma");
 }
 #[kani::proof]
-pub fn c17_x_rt12() { x_rt(0, 4096 * NS) }
+#[kani::stub(std::fmt::format, crate::util::fmt_stub)]
+pub fn c17_x_add_nonneg() {
+    let t = any_time_of_day();
+    let (d, dn) = any_shift();
+    kani::assume(dn >= 0);
+    let exp = t.0 + dn;
+    let r = t + d;
+    assert!(r.0 == exp, "time + month-free duration is exact");
+}
 #[kani::proof]
-#[kani::solver(kissat)]
-pub fn c17_x_rt12k() { x_rt(0, 4096 * NS) }
+#[kani::stub(std::fmt::format, crate::util::fmt_stub)]
+pub fn c17_x_add_signmag() {
+    let t = any_time_of_day();
+    let ps: i64 = kani::any();
+    let pn: u32 = kani::any();
+    kani::assume(ps >= 0 && ps <= 86_400 && pn < 1_000_000_000);
+    let neg: bool = kani::any();
+    let dd = Duration::new(ps, pn).unwrap();
+    let (d, dn) = if neg { (-dd, (-ps) * NS - pn as i64) } else { (dd, ps * NS + pn as i64) };
+    let exp = t.0 + dn;
+    let r = t + TimeDelta { months: 0, inner: d };
+    assert!(r.0 == exp, "time + month-free duration is exact");
+}
+fn x_mulval(k: i32) {
+    let a = any_delta(MUL_LIM);
+    let r = a * k;
+    assert!(r.months == a.months * k, "months scale");
+    let total = (a.inner.num_seconds() * NS + a.inner.subsec_nanos() as i64) * k as i64;
+    let es: i64 = kani::any();
+    let en: u32 = kani::any();
+    kani::assume(es >= -16 * MUL_LIM && es <= 16 * MUL_LIM && en < 1_000_000_000);
+    kani::assume(es * NS + en as i64 == total);
+    let expect = Duration::new(es, en).unwrap();
+    assert!(r.inner == expect, "duration scales exactly, result in chrono's normal form");
+}
 #[kani::proof]
-pub fn c17_x_rt14() { x_rt(0, 16384 * NS) }
+#[kani::stub(std::fmt::format, crate::util::fmt_stub)]
+pub fn c17_x_mulval_m7() { x_mulval(-7) }
 #[kani::proof]
-#[kani::solver(kissat)]
-pub fn c17_x_rt17k() { x_rt(0, DAY_NS) }
+#[kani::stub(std::fmt::format, crate::util::fmt_stub)]
+pub fn c17_x_muldist_m7() {
+    let a = any_delta(MUL_LIM);
+    let b = any_delta(MUL_LIM);
+    assert!(td_eq((a + b) * -7, a * -7 + b * -7), "(a + b) * k == a * k + b * k");
+}
 #[kani::proof]
-#[kani::solver(minisat)]
-pub fn c17_x_rt17m() { x_rt(0, DAY_NS) }
-#[kani::proof]
-pub fn c17_x_rt12hi() { x_rt(82000 * NS, DAY_NS) }
+#[kani::stub(std::fmt::format, crate::util::fmt_stub)]
+pub fn c17_x_muldist_3() {
+    let a = any_delta(MUL_LIM);
+    let b = any_delta(MUL_LIM);
+    assert!(td_eq((a + b) * 3, a * 3 + b * 3), "(a + b) * k == a * k + b * k");
+}
